@@ -282,6 +282,46 @@ def check_worker(ctx):
     return ob
 
 
+def check_worker_tick(ctx):
+    """the worker loop poisons on an Err from worker_tick - so worker_tick itself must hand every journal failure on: the rotation of the journal (flush + fsync of the file
+    being sealed), the journal position query (flushes the buffer) and journal maintenance"""
+    pat = r'^(worker_pool::)?worker_tick$'
+    ob = ctx.ob('worker-tick/journal-errors-propagate', 'worker_tick: an Err from journal rotation, from the journal position query or from journal maintenance is returned to the worker loop '
+                '(which poisons the database); none of them is logged and dropped', [pat])
+    ex, paths = ctx.run(pat, cache_key='c10.tick', loop_bound=2,
+                        no_inline=[r'run_flush$', r'run_compaction$', r'JournalManager::maintenance$', r'JournalManager::rotate_journal$', r'Supervisor::build_seqno_map$',
+                                   r'get_keyspaces_to_flush_for_oldest_journal_eviction$', r'inner_rotate_memtable$', r'request_rotation$', r'FlushManager::dequeue$'])
+    bad = []
+    inc = [q for q in paths if q.status in ('error', 'timeout')]      # (paths cut by the loop bound are iterations of the stall / retry loops, not exits)
+    if inc:
+        ob.status = 'undecided'; ob.detail = 'executor: ' + str(inc[0].notes[-1:]); return ob
+    WATCH = ('rotate_journal', 'JournalManager::maintenance', 'Writer::pos')
+    for p in paths:
+        if p.status != 'returned':
+            continue
+        for e in p.events:
+            if e.kind != 'CALL' or not e.args.get('callee', '').endswith(WATCH):
+                continue
+            res = e.res
+            if not isinstance(res, EnumV) or isinstance(res.disc, int):
+                continue
+            # did this path take the call's error outcome?
+            if ctx.sat(p.pc + [res.disc == bv(0)], ob)[0] != z3.unsat:
+                continue
+            ob.reach += 1
+            if ret_is_err(p) is None or ctx.sat(p.pc + [z3.Not(ret_is_err(p))], ob)[0] != z3.unsat:
+                bad.append((p, f'{e.args["callee"].split("::")[-1]} failed (journal I/O) but worker_tick goes on and returns Ok: the failure is swallowed, the database is not poisoned and keeps acknowledging writes')); break
+        if bad:
+            break
+    if ob.reach == 0:
+        ob.status = 'undecided'; ob.detail = 'vacuous: no failing journal call explored'
+    elif not bad:
+        ob.status = 'discharged'; ob.sample = {'error_paths': ob.reach}
+    else:
+        ctx.candidate(ob, 'worker-tick/journal-error-swallowed', f'{ob.id}: {bad[0][1]}', confirm=lambda: native_worker_crash(ctx))
+    return ob
+
+
 def native_worker_crash(ctx):
     """a worker thread hits a journal I/O failure (fsync of the journal being sealed at a flush tick): the database must be poisoned and later writes refused"""
     big = '62' * 200
@@ -333,6 +373,7 @@ def run(ctx):
     check_fault_poisons(ctx, 'persist', r'^db::<impl>::persist$', opname='persist:syncall')
     check_poison_gate(ctx, 'persist', r'^db::<impl>::persist$')
     check_worker(ctx)
+    check_worker_tick(ctx)
     for o in ctx.obligations:
         ctx.samples.append(o.as_dict())
     return ctx.finish()
